@@ -290,18 +290,24 @@ def eq_polarity_sweep(ck, c, scope, name_pat, rule="CMP", exceptions=None):
     return n
 
 
+_CG_CACHE = {}
+
+
 def rejecting_checks_by_module(c, scope, name_pat):
-    """{module: number of comparisons that can refuse} over the verifier-side functions of a scope"""
+    """{module: number of comparisons that can refuse} over the verifier-side functions of a scope and every function of
+    the same scope they (transitively) call - so that moving a check into a helper does not change the count"""
+    from vlib.callgraph import CallGraph
+    if id(c) not in _CG_CACHE:
+        _CG_CACHE[id(c)] = CallGraph([c])
+    cg = _CG_CACHE[id(c)]
+    roots = [p for p in sorted(c.paths()) if scope.search(p) and name_pat.search(p) and not re.search(r"::tests?::|::test_", p)]
+    reach = set(cg.reach(roots)) | set(roots)
     out = {}
-    for p in sorted(c.paths()):
-        if not scope.search(p) or not name_pat.search(p) or re.search(r"::tests?::|::test_", p):
+    for p in sorted(reach):
+        if not scope.search(p) or re.search(r"::tests?::|::test_", p) or p not in cg.bodies:
             continue
-        m = re.match(r"^<?((?:[a-z_0-9]+::)+)", p)
-        mod = (m.group(1).rstrip(":") if m else "?")
         mm = re.search(r"(concordium_base::(?:[a-z_0-9]+::)*[a-z_0-9]+)::", p)
-        mod = mm.group(1) if mm else mod
-        # strip the function name: keep the first three path segments (crate::area::file)
-        mod = "::".join(mod.split("::")[:3])
+        mod = "::".join((mm.group(1) if mm else "?").split("::")[:3])
         for b in c.get_all(p):
             f = Fn(b)
             for cx in rules.comparisons(f):
